@@ -179,6 +179,7 @@ func (node *harness) run(ctx context.Context, sender tracing.ISenderHandle) {
 			case nextHarnessActionMessage:
 				atomic.StoreInt32(&node.active, 1)
 				node.tracer.Send(ActiveBoundaryTrace{Start: true, Node: node.activity.Element()})
+				verifhook.Point("harness.before_next_action")
 				in := node.activity.NextAction(ctx, m.flow)
 				out := make(chan IAction, 1)
 				go func(bctx context.Context) {
